@@ -376,7 +376,7 @@ func runCase(c Case, wantSample bool) CaseResult {
 		for _, k := range f.Kernels {
 			kinds = append(kinds, k.Name+":"+kindName[k.Kind])
 		}
-		res.Sample, _ = json.Marshal(map[string]any{"family": c.Family, "kernels": kinds, "layout": f.Layout, "text_lead": f.TextLead,
+		res.Sample, _ = json.Marshal(map[string]any{"family": c.Family, "kernels": kinds, "ei_abiversion": f.ABI, "layout": f.Layout, "text_lead": f.TextLead,
 			"rodata_lead": f.RoLead, "section_order": f.SecOrder, "symbol_group_order": f.Perm, "arrangement": f.Arr, "file_bytes": len(file),
 			"loaded": names[len(names)-1], "expected_instruction_bytes": len(e.Data), "expected_meta": fmt.Sprintf("%+v", e.Meta)})
 	}
